@@ -126,6 +126,9 @@ def do_restart(world, rep, op):
     # ---------------- write
     setup_fs(world, op)
     target, handle = make_write_target(world, op, path)
+    PRE = b'# written by the caller before handing the file over\n'
+    if op.get('preamble') and handle is not None:
+        handle.write(PRE)
     fs.reset_counters()
     fs.fail_write = op.get('fail_write')
     fs.fail_close = bool(op.get('fail_close'))
@@ -165,6 +168,13 @@ def do_restart(world, rep, op):
         raise Violation(tag + '.bytes', 'undecodable-file', {'op': op, 'error': repr(ex)[:200],
                                                              'head': repr(bytes(world.fs.files.get(path, b''))[:40])})
     # the bytes on the simulated disk at return: exactly the rows the statement describes
+    if op.get('preamble') and handle is not None:
+        # rows are emitted at the handle's position: what the caller wrote before is still there
+        if not data.startswith(PRE):
+            raise Violation(tag + '.bytes', 'callers-earlier-bytes-overwritten', {'op': op, 'head': repr(data[:80])})
+        data = data[len(PRE):]
+        rows = split_rows(data, enc, wd)
+        world.count('restart.preamble')
     if rows and rows[-1] is None:
         raise Violation(tag + '.bytes', 'last-row-not-terminated', {'op': op, 'tail': repr(data[-40:])})
     d = wd if wd is not None else ' '
@@ -197,7 +207,16 @@ def do_restart(world, rep, op):
         # the call returned normally although a fault fired: the file above was complete, fine
         pass
     # ---------------- read
-    source, rhandle = make_read_source(world, op, path, data)
+    if op.get('preamble') and op.get('target') in ('bytesio', 'simhandle'):
+        d0 = wd if wd is not None else ' '
+        first = (d0.join(['977', '978', '+', '979']) if via == 'interactions' else d0.join(['977', '978', '979'])) \
+            if nodetype is int else \
+            (d0.join(['zq', 'zr', '+', '979']) if via == 'interactions' else d0.join(['zq', 'zr', '979']))
+        skip = (first + '\n').encode(enc)
+        source, rhandle = make_read_source(world, op, path, skip + data)
+        rhandle.seek(len(skip))          # the caller has already consumed the first line
+    else:
+        source, rhandle = make_read_source(world, op, path, data)
     fs.reset_counters()
     fs.rchunk = op.get('rchunk', 8192)
     fs.fail_read = op.get('fail_read')
